@@ -40,7 +40,7 @@ Inductive label :=
 | LDeliver (i : nat)     (* rendezvous worker i -> merger on mergableFiles *)
 | LAdd                   (* sorted.add returns *)
 | LWalkerDone            (* listing exhausted, walkDir returns nil *)
-| LWalkerCancel          (* walker's select takes <-groupCtx.Done() *)
+| LWalkerCancel          (* walker's select takes <-groupCtx.Done(): the path at hand is dropped *)
 | LPathsCancel           (* pathsGroup.Wait() returned; pathsCancelFunc() *)
 | LWorkerExit (i : nat)  (* idle worker takes <-pathsCtx.Done() *)
 | LWorkerCancel (i : nat)(* holding worker takes <-groupCtx.Done() *)
@@ -113,10 +113,15 @@ Section Proto.
         | _ => None
         end
     | LWalkerCancel =>
+        (* the select of walkDir takes <-ctx.Done(): this path is never sent and walkDir returns nil.
+           When the caller is an enclosing walkDir its loop goes on with the next entry, which may be
+           sent or dropped in turn (observed on the real code: a path after the abandoned
+           sub-directory was still handed to a worker) — so one path is dropped per step and the
+           walker is done when none is left *)
         match queue s with
-        | _ :: _ =>
+        | _ :: q =>
             if sel && negb (walker_done s) && gcancel s
-            then Some (mk (queue s) true (ws s) (mg s) (merged s) (paths_done s) (parse_done s))
+            then Some (mk q false (ws s) (mg s) (merged s) (paths_done s) (parse_done s))
             else None
         | [] => None
         end
